@@ -392,6 +392,9 @@ def curve_fit(f, xdata, ydata, p0=None, sigma=None, absolute_sigma=False, check_
         if bool(_cmp(l, h, "ge")):
             raise ValueError("Each lower bound must be strictly less than each upper bound.")
     for v, l, h in zip(p0l, los, his):
+        if isinstance(v, float) and (math.isinf(v) or math.isnan(v)):
+            # real scipy: least_squares evaluates the model at x0 and refuses non-finite residuals
+            raise ValueError("Residuals are not finite in the initial point.")
         if bool(_cmp(v, l, "lt")) or bool(_cmp(v, h, "gt")):
             raise ValueError("`x0` is infeasible.")
     k = len(OptCalls.curve_fit)
